@@ -655,6 +655,12 @@ class State:
             od = {s: B.orderOf(c, s) for s in B.simplices(c)}
             return {s: frozenset(t for t in bs if od[t] == od[s] - 1 and bs[t] <= bs[s]) for s in bs}, od
         fa, oa = facets(a); fb, ob = facets(b)
+        # `addSimplex` also accepts faces that are not the facets of one simplex (k+1 simplices of order k-1 that do
+        # not close up); there the bases say nothing about the faces and the stored faces are the only reading of
+        # "the same set of faces"
+        sfa = {s: frozenset(B.faces(a, s)) for s in sa}; sfb = {s: frozenset(B.faces(b, s)) for s in sb}
+        if sfa != fa or sfb != fb:
+            fa, fb = sfa, sfb
         le = all(s in fb and ob[s] == oa[s] and fa[s] == fb[s] for s in sa)
         ge = all(s in fa and oa[s] == ob[s] and fa[s] == fb[s] for s in sb)
         want = dict(le=le, lt=le and len(sa) < len(sb), ge=ge, gt=ge and len(sb) < len(sa),
